@@ -57,17 +57,18 @@ class MultiLayer(layer.Layer):
     """opens k connections to the same address at once (commands are marked as handled by this layer, like
     HttpLayer does for its streams, so the layer never pauses), relays, closes on close."""
 
-    def __init__(self, context, k):
+    def __init__(self, context, k, distinct=False):
         super().__init__(context)
         self.k = k
+        self.distinct = distinct  # k different original addresses (an addon may redirect them all to one target)
         self.conns = []
         self.closing = False
 
     def _handle_event(self, ev):
         client = self.context.client
         if isinstance(ev, events.Start):
-            for _ in range(self.k):
-                c = Server(address=ADDR)
+            for i in range(self.k):
+                c = Server(address=("10.0.1.%d" % (i + 1), 80) if self.distinct else ADDR)
                 self.conns.append(c)
                 cmd = commands.OpenConnection(c)
                 cmd.blocking = self
@@ -117,9 +118,10 @@ class W9(EWorld):
         return await super()._open(transport, host, port)
 
 
-LAYERS = {"tcp": None, "k2": 2, "k6": 6, "k7": 7}
+# m7: seven *different* original addresses, used with the `redirect` policy (server_connect rewrites them all to ADDR)
+LAYERS = {"tcp": None, "k2": 2, "k6": 6, "k7": 7, "m7": 7}
 SUSPEND = ["none", "server_connect", "server_connected", "server_connect_error", "server_disconnected", "client_connected", "client_disconnected"]
-POLICIES = ["none", "kill_server", "kill_client"]
+POLICIES = ["none", "kill_server", "kill_client", "redirect"]
 FAULTS = ("refuse", "c_eof", "c_err", "s_eof", "s_err", "c_close_srv", "timeout", "c_data_drain_c", "c_data_drain_s", "s_data_drain_c")
 
 
@@ -129,6 +131,8 @@ def make_policy(pol):
             data.server.error = "killed by addon"
         if pol == "kill_client" and name == "client_connected":
             data.error = "killed by addon"
+        if pol == "redirect" and name == "server_connect":
+            data.server.address = ADDR  # an addon redirecting upstream connections; open_connection connects to the new address
 
     return policy if pol != "none" else None
 
@@ -291,7 +295,7 @@ class Exec:
             return False
 
         w = W9(mode="reverse:tcp://10.0.0.1:80", policy=make_policy(self.pol), suspend=suspend if self.susp != "none" else None,
-               layer_factory=(lambda ctx: MultiLayer(ctx, k)) if k else None, eager=self.eager)
+               layer_factory=(lambda ctx: MultiLayer(ctx, k, distinct=self.lay == "m7")) if k else None, eager=self.eager)
         choices, widths, costs = [], [], []
         trace = []
 
@@ -500,6 +504,11 @@ def specs(tier):
     out = []
     thorough = tier == "thorough"
     for lay in LAYERS:
+        if lay == "m7":
+            # an addon redirects seven different destinations to one target: the bound is per *connected* address
+            for susp in ("none", "server_connect", "server_connected") if thorough else ("none", "server_connect"):
+                out.append((lay, susp, "redirect", True))
+            continue
         for susp in SUSPEND:
             out.append((lay, susp, "none", True))
         out.append((lay, "none", "kill_server", True))
@@ -524,8 +533,8 @@ def bound_of(key):
 
 BOUNDS = {
     # layer -> deviation bound (a minor fault variant or an injection costs INJECT_COST deviations)
-    "quick": {"tcp": 3, "k2": 2, "k6": 1, "k7": 1},
-    "thorough": {"tcp": 4, "k2": 3, "k6": 2, "k7": 2},
+    "quick": {"tcp": 3, "k2": 2, "k6": 1, "k7": 1, "m7": 1},
+    "thorough": {"tcp": 4, "k2": 3, "k6": 2, "k7": 2, "m7": 2},
 }
 INJECT_COST = 2
 
